@@ -244,8 +244,8 @@ func c08HeaderSets(full bool) []c08Hdrs {
 
 func c08Configs() []c08Cfg {
 	var out []c08Cfg
-	for _, ci := range []string{"", "X-Client-Ip", "X-Real-Ip", "X-Forwarded-For"} {
-		for _, th := range [][2]string{{"", ""}, {"X-Tls", "true"}, {"Secure", ""}} {
+	for _, ci := range []string{"", "X-Client-Ip", "X-Real-Ip", "X-Forwarded-For", "X-CLIENT-IP"} {
+		for _, th := range [][2]string{{"", ""}, {"X-Tls", "true"}, {"Secure", ""}, {"X-TLS", "on"}, {"x-forwarded-ssl", "1"}} {
 			for _, ho := range []string{"", "h.example", "dst"} {
 				for k, rest := range []c08Cfg{{}, {localIP: "192.0.2.1", stsAge: 31536000, stsSub: true}, {stsAge: 1, stsPreload: true}, {localIP: "2001:db8::2", stsAge: 2147483647, stsSub: true, stsPreload: true}} {
 					if !ev.Thorough() && k >= 2 {
@@ -273,7 +273,7 @@ func (c c08Cfg) apply(r *rig) {
 
 func TestVerifC08Headers(t *testing.T) {
 	L := ev.Begin("C08", "c08-headers", "exploration",
-		"header-related configuration (client-ip header none/custom/X-Real-Ip/X-Forwarded-For x TLS header none/set x LocalIP/HSTS variants x route host option none/name/dst) x connection plain/TLS x every subset of 8 fabio-managed headers forged by the client (2^8) plus repeated and lower-case spellings x Host with/without port x IPv4/IPv6 peer, served by the real HTTPProxy to a recording upstream; oracle = the six clauses of the statement. non-trivial = at least one forged header or a TLS connection")
+		"header-related configuration (client-ip header none/custom/X-Real-Ip/X-Forwarded-For x TLS header none/set (canonical and non-canonical spellings) x LocalIP/HSTS variants x route host option none/name/dst) x connection plain/TLS x every subset of 8 fabio-managed headers forged by the client (2^8) plus repeated and lower-case spellings x Host with/without port x IPv4/IPv6 peer, served by the real HTTPProxy to a recording upstream; oracle = the six clauses of the statement. non-trivial = at least one forged header or a TLS connection")
 	cfgs := c08Configs()
 	sets := c08HeaderSets(true)
 	type job struct {
